@@ -178,6 +178,26 @@ def cases(shard):
             for o in bins:
                 if o != '\\in':
                     yield dict(kind='flatten', toks=[pr, 'a', o, 'b', "'"])
+        # explicit groupings (also AGAINST the precedence) and prefix /
+        # postfix operators over infix operands on either side of every
+        # binary operator
+        for o1, o2 in itertools.product(bins, repeat=2):
+            if '\\in' in (o1, o2):
+                continue
+            yield dict(kind='flatten', toks=['(', 'a', o1, 'b', ')', o2, 'c'])
+            yield dict(kind='flatten', toks=['a', o1, '(', 'b', o2, 'c', ')'])
+        for pr in pres:
+            for o in bins:
+                if o == '\\in':
+                    continue
+                for oi in ('/\\', '+', 'U', '='):
+                    inner = ['(', pr, '(', 'a', oi, 'b', ')', ')']
+                    yield dict(kind='flatten', toks=inner + [o, 'c'])
+                    yield dict(kind='flatten', toks=['c', o] + inner)
+                yield dict(kind='flatten', toks=['(', pr, 'a', ')', o, 'c'])
+                yield dict(kind='flatten', toks=['c', o, '(', pr, 'a', ')'])
+                yield dict(kind='flatten',
+                           toks=['(', 'a', '/\\', 'b', ')', "'", o, 'c'])
         for s in EXTENTS:
             yield dict(kind='flatten', s=s)
     elif k == 'split':
@@ -229,6 +249,14 @@ NON_GR1 = [
     ("<>[] (a /\\ <> b) \\/ []<> c", 'eventually under persistence'),
     ("[]<>a \\/ ([]<>b /\\ []<>c)", 'two recurrence disjuncts'),
     ("<>[] p \\/ []<> q \\/ []<> r", 'two recurrence disjuncts in a pair'),
+    ("<>[] (x' = x)", 'primed variable under persistence'),
+    ("<>[] (x' = x) \\/ []<> q", 'primed variable under persistence'),
+    ("<>[] (X p)", 'next under persistence'),
+    ("<>[] (p /\\ X q) \\/ []<> r", 'next under persistence'),
+    ("[]<> (x' = x)", 'primed variable under recurrence'),
+    ("[]<> (X p)", 'next under recurrence'),
+    ("a /\\ (x' = 1)", 'primed variable in initial condition'),
+    ("<>[] p \\/ []<> (q /\\ r')", 'primed variable under recurrence'),
 ]
 INIT_MENU = ["x > 0", "y + 1 < 2", "p"]
 ACT_MENU = ["[] (x' = x + 1)", "[] ((X y) > 0 /\\ p)", "[] (p => q')"]
